@@ -179,12 +179,28 @@ class BaseOverlay:
                 collection = HandlerCollection(handlers)
             else:
                 collection = curr.plus(handlers)
+            self.collection = collection
             self.reset = HandlerCollection.current.set(collection)
             return collection
 
     def __exit__(self, typ, exc, tb):
         if self.handlers:
-            HandlerCollection.current.reset(self.reset)
+            curr = HandlerCollection.current.get()
+            if curr is self.collection:
+                HandlerCollection.current.reset(self.reset)
+            else:
+                # Overlays are not being exited in the order they were
+                # entered (e.g. global probes deactivated in any order):
+                # only remove our own handlers from the current collection
+                pairs = curr.handler_pairs if curr is not None else []
+                remaining = [
+                    (sel, h)
+                    for sel, h in pairs
+                    if not any(h is own for own in self.handlers)
+                ]
+                HandlerCollection.current.set(
+                    HandlerCollection(remaining) if remaining else None
+                )
 
 
 class Overlay(BaseOverlay):
